@@ -4,6 +4,22 @@ go 1.20
 
 require github.com/multiversx/mx-chain-storage-go v0.0.0
 
-require github.com/multiversx/mx-chain-core-go v1.2.24 // indirect
+require (
+	github.com/golang/snappy v0.0.4 // indirect
+	github.com/hashicorp/golang-lru v0.6.0 // indirect
+	github.com/multiversx/concurrent-map v0.1.4 // indirect
+	github.com/syndtr/goleveldb v1.0.1-0.20220721030215-126854af5e6d // indirect
+)
+
+require (
+	github.com/denisbrodbeck/machineid v1.0.1 // indirect
+	github.com/gogo/protobuf v1.3.2 // indirect
+	github.com/golang/protobuf v1.5.2 // indirect
+	github.com/mr-tron/base58 v1.2.0 // indirect
+	github.com/multiversx/mx-chain-core-go v1.2.24
+	github.com/multiversx/mx-chain-logger-go v1.0.15
+	github.com/pelletier/go-toml v1.9.3 // indirect
+	google.golang.org/protobuf v1.28.0 // indirect
+)
 
 replace github.com/multiversx/mx-chain-storage-go => /repo
